@@ -15,9 +15,11 @@ Falsifier (`search`): per-bin exact integral, conservation of the filter integra
 flat-spectrum identity, evaluated on the real `rebin` output with exact sums (Fractions), independent of
 the Lean model.
 """
+import copy
 import gzip
 import math
 import os
+import pickle
 import shutil
 import tempfile
 
@@ -44,7 +46,8 @@ REQUIRED_BRANCHES = ['filter_increasing_nu', 'filter_decreasing_nu', 'sed_increa
                      'grid_unit_Hz', 'grid_unit_GHz', 'grid_unit_THz', 'filter_nu_unit_Hz', 'filter_nu_unit_GHz',
                      'filter_nu_unit_THz', 'file_wav_increasing', 'file_wav_decreasing',
                      'file_asymmetric', 'response_dtype_f8', 'response_dtype_f4', 'response_dtype_i8', 'response_dtype_i4', 'low_frequency_filter',
-                     'integer_response_low_frequency', 'package_cube_error_unit_differs', 'package_files_error_unit_differs', 'shared_arrays', 'shared_arrays_f8', 'shared_arrays_readonly', 'shared_response_readonly', 'integ_generic', 'integ_swapped', 'integ_equal_inside', 'integ_equal_knot', 'integ_equal_first_end',
+                     'integer_response_low_frequency', 'package_cube_error_unit_differs', 'package_files_error_unit_differs', 'package_cube_many_models', 'package_overwrite_stale', 'filter_construct_kw', 'filter_construct_positional',
+                     'filter_construct_attrs', 'filter_via_copy', 'filter_via_deepcopy', 'filter_via_pickle', 'shared_arrays', 'shared_arrays_f8', 'shared_arrays_readonly', 'shared_response_readonly', 'integ_generic', 'integ_swapped', 'integ_equal_inside', 'integ_equal_knot', 'integ_equal_first_end',
                      'integ_equal_last_end', 'integ_table_ends', 'integ_table_ends_swapped', 'integ_both_knots',
                      'integ_end_to_inside', 'integ_inside_to_end', 'integ_knot_to_inside', 'integ_decreasing_storage',
                      'integ_increasing_storage', 'package_seds_gz', 'package_seds_subdir', 'package_seds_subdir_1', 'package_seds_subdir_2',
@@ -196,6 +199,9 @@ def gen_filter(rng, mode, n=None, zero_edges=None, order=None, normalize=None, n
                 ints[rs.index(top)] = 1.
             flt['r'] = ints
         flt['lowfreq'] = bool(lowfreq)
+        flt['construct'] = rng.choice(['kw', 'kw', 'positional', 'attrs'])
+    flt['dup'] = rng.choice([None, None, None, 'copy', 'deepcopy', 'pickle'])
+    if mode == 'nu':
         # the frequencies may be handed over in another frequency unit (the code converts with .to(u.Hz))
         flt['nu_unit'] = nu_unit or rng.choice(['Hz', 'Hz', 'GHz', 'THz'])
         if flt['nu_unit'] != 'Hz':
@@ -307,6 +313,34 @@ def unit_level(unit):
     return 1e-12 if unit == 'cgs' else float(1 / FNU_IN_MJY[unit])
 
 
+def gen_many_package(rng, nodes):
+    """a cube with more than 1000 models (not a multiple of 1000) and few wavelengths, stored compactly: model m is the
+    base SED times (0.5 + ((37 m) mod 101) / 100)"""
+    pkg = gen_package(rng, nodes, hetero=False, fmt='cube')
+    nus = gen_grid(rng, 'cover_coarse', nodes, False, m=rng.randint(3, 6), order='inc')
+    wav = _strict(sorted(float('%.7g' % (C_UM_HZ / v)) for v in nus))
+    nap = len(pkg['flux'][0])
+    level = pkg['flux'][0][0][0]
+    base_f = [[float('%.4g' % (level * rng.uniform(0.3, 3.))) for _ in wav] for _ in range(nap)]
+    base_e = [[float('%.3g' % (f * rng.uniform(0.01, 0.5) * (1. if pkg['unit_err'] == pkg['unit'] else
+                                                              unit_level(pkg['unit_err']) / unit_level(pkg['unit']))))
+               for f in row] for row in base_f]
+    n = rng.choice([1001, 1030, 1999, 2001, 2500])
+    return dict(pkg, wavs=[wav], flux=[base_f], err=[base_e], names=[], table=[], gz=[], many=dict(n=n))
+
+
+def expand_package(pkg):
+    """the full package dict of a compactly stored many-model cube"""
+    if not pkg.get('many'):
+        return pkg
+    n = pkg['many']['n']
+    mult = [0.5 + ((37 * m) % 101) / 100. for m in range(n)]
+    names = ['m%04d' % m for m in range(n)]
+    return dict(pkg, names=names, table=list(names), wavs=[pkg['wavs'][0]] * n, gz=[False] * n,
+                flux=[[[v * k for v in row] for row in pkg['flux'][0]] for k in mult],
+                err=[[[v * k for v in row] for row in pkg['err'][0]] for k in mult])
+
+
 def gen_package(rng, nodes, hetero=None, fmt=None, fine=False, unit=None):
     """small per-file package whose wavelength grid(s) overlap the filter.  `hetero`: consecutive models
     (in file-listing order) get grids with the same length and end points but different interior points,
@@ -375,6 +409,7 @@ def gen_package(rng, nodes, hetero=None, fmt=None, fine=False, unit=None):
     return dict(wavs=wavs, names=names, table=table, flux=flux, err=err, apertures=aps if nap > 1 else None,
                 hetero=bool(hetero), fmt=fmt, unit=unit, unit_err=unit_err, memmap=bool(rng.random() < 0.5),
                 gz=[bool(fmt != 'cube' and rng.random() < 0.25) for _ in range(nm)], subdir=subdir, axes=axes,
+                stale=bool(rng.random() < 0.3),
                 nu_unit=rng.choice(['Hz', 'Hz', 'GHz', 'THz']))
 
 
@@ -438,7 +473,7 @@ DIRECTED_DTYPE = [
     ('f8', True, True, 'cover_tight', 'cube'),
 ]
 # packages stored in flux-density units whose FITS strings differ from another unit only by case, and in other prefixes
-DIRECTED_UNITS = [('MJy', True), ('MJy', 'cube'), ('kJy', True), ('uJy', 'cube'), ('nJy', True), ('W/m2/Hz', 'cube'),
+DIRECTED_UNITS = [('mJy', 'many'), ('Jy', 'many'), ('MJy', True), ('MJy', 'cube'), ('kJy', True), ('uJy', 'cube'), ('nJy', True), ('W/m2/Hz', 'cube'),
                   ('MJy', 'hetero'), ('W/m2/Hz', True)]
 HIST_OPS = ['normalize', 'assign_response', 'assign_response', 'assign_both', 'grid']
 HIST_DIRECTED = [['normalize'], ['assign_response', 'normalize'], ['assign_both'], ['grid', 'assign_response'], [],
@@ -498,7 +533,9 @@ def gen_case(rng, directed=None, small=False, hist=None, notch=None, r_dtype=Non
     if hist is None:
         hist = [rng.choice(HIST_OPS) for _ in range(rng.choice([0, 1, 1, 2, 3]))]
     case['history'] = [gen_step(rng, op, flt, nodes) for op in hist]
-    if with_pkg:
+    if with_pkg == 'many':
+        case['package'] = gen_many_package(rng, nodes)
+    elif with_pkg:
         case['package'] = gen_package(rng, nodes, hetero=True if with_pkg == 'hetero' else (False if directed else None),
                                       fmt='cube' if with_pkg == 'cube' else ('files' if directed else None),
                                       fine=bool(notch), unit=pkg_unit)
@@ -525,7 +562,7 @@ def gen_cases(seed, tier):
             k = i - 2 * len(DIRECTED) - len(DIRECTED_NOTCH) - len(DIRECTED_DTYPE)
             un, pkgf = DIRECTED_UNITS[k]
             yield gen_case(rng, (['nu', 'wav', 'file'][k % 3], ['inc', 'dec'][k % 2], False, bool(k % 2), 'cover_fine',
-                                 'inc', pkgf), hist=[], pkg_unit=un)
+                                 'inc', pkgf), hist=[], pkg_unit=None if pkgf == 'many' else un)
         else:
             yield gen_case(rng)
 
@@ -558,9 +595,19 @@ def build_filter(flt, d):
     from astropy import units as u
     from sedfitter.filter import Filter
     if flt['mode'] == 'nu':
-        f = Filter(name='FLT', central_wavelength=flt['central'] * u.micron,
-                   nu=np.array(flt['x'], dtype=float) * freq_unit(flt.get('nu_unit', 'Hz')),
-                   response=np.array(flt['r'], dtype=R_DTYPES[flt.get('r_dtype', 'f8')]))
+        nu_q = np.array(flt['x'], dtype=float) * freq_unit(flt.get('nu_unit', 'Hz'))
+        resp = np.array(flt['r'], dtype=R_DTYPES[flt.get('r_dtype', 'f8')])
+        how = flt.get('construct', 'kw')
+        if how == 'positional':
+            f = Filter('FLT', flt['central'] * u.micron, nu_q, resp)
+        elif how == 'attrs':
+            f = Filter()
+            f.name = 'FLT'
+            f.central_wavelength = flt['central'] * u.micron
+            f.nu = nu_q
+            f.response = resp
+        else:
+            f = Filter(name='FLT', central_wavelength=flt['central'] * u.micron, nu=nu_q, response=resp)
     elif flt['mode'] == 'wav':
         f = pk.make_filter('FLT', flt['central'], flt['x'], flt['r'], normalize=False)
     else:
@@ -570,6 +617,9 @@ def build_filter(flt, d):
             for x, r in zip(flt['x'], flt['r']):
                 fh.write('%r %r\n' % (x, r))
         f = Filter.read(path)
+    # the object may travel through copy / deepcopy / pickle before it is used
+    if flt.get('dup'):
+        f = {'copy': copy.copy, 'deepcopy': copy.deepcopy, 'pickle': lambda o: pickle.loads(pickle.dumps(o))}[flt['dup']](f)
     why = None
     want_nu = written_nu(flt)
     got_nu = held_nu(f)
@@ -691,6 +741,10 @@ def grid_branches(nus_held, grid, flt):
             b.add('low_frequency_filter')
             if flt.get('r_dtype') in ('i8', 'i4') and not flt['normalize']:
                 b.add('integer_response_low_frequency')
+    if flt['mode'] == 'nu':
+        b.add('filter_construct_' + flt.get('construct', 'kw'))
+    if flt.get('dup'):
+        b.add('filter_via_' + flt['dup'])
     if not any(r > 0 for r in flt['r']):
         b.add('all_zero_filter')
     elif interior_zero(flt['r']):
@@ -955,6 +1009,10 @@ def run_case(case):
             branches.add('package_error_unit_' + pkg.get('unit_err', pkg.get('unit', 'mJy')))
             if pkg.get('unit_err', pkg.get('unit', 'mJy')) != pkg.get('unit', 'mJy'):
                 branches.add('package_%s_error_unit_differs' % ('cube' if pkg.get('fmt') == 'cube' else 'files'))
+            if pkg.get('many'):
+                branches.add('package_cube_many_models')
+            if pkg.get('stale'):
+                branches.add('package_overwrite_stale')
             if any(pkg.get('gz') or []):
                 branches.add('package_seds_gz')
             if pkg.get('subdir'):
@@ -1048,7 +1106,7 @@ def run_package(case, f, flt, nus_held, d, drv):
     from astropy import units as u
     from sedfitter.convolve import convolve_model_dir
     from sedfitter.convolved_fluxes import ConvolvedFluxes
-    pkg = case['package']
+    pkg = expand_package(case['package'])
     md = os.path.join(d, 'models')
     os.makedirs(os.path.join(md, 'seds'))
     wavs = package_grids(pkg)
@@ -1062,6 +1120,10 @@ def run_package(case, f, flt, nus_held, d, drv):
     axes = pkg.get('axes', 'wav_only' if cube else 'both')
     try:
         with common.quiet():
+            if pkg.get('stale'):
+                # a convolved file left over from an earlier run is replaced (documented option overwrite=True)
+                pk.write_convolved(md, f.name, 1., ['stale_model'], [[123.] * nap], [[4.] * nap],
+                                   apertures_au=pkg['apertures'])
             if cube:
                 # cube package (version 2): one spectral axis, values and uncertainties in `unit`
                 cb = pk.make_cube(pkg['names'], wavs[0], np.array(pkg['flux'], dtype=float),
@@ -1073,7 +1135,10 @@ def run_package(case, f, flt, nus_held, d, drv):
                 pk.write_conf(md, aperture_dependent=nap > 1, version=2)
                 cb.write(os.path.join(md, 'flux.fits'), overwrite=True)
                 pk.write_parameters(md, list(pkg['names']), {'PAR1': [float(i) for i in range(len(pkg['names']))]})
-                convolve_model_dir(md, [f], memmap=bool(pkg.get('memmap')))
+                if pkg.get('stale'):
+                    convolve_model_dir(md, [f], True, bool(pkg.get('memmap')))       # positional: overwrite, memmap
+                else:
+                    convolve_model_dir(md, [f], memmap=bool(pkg.get('memmap')))
             else:
                 # per-file package; file-listing order = order of `names`; every model has its own grid
                 ksub = int(pkg.get('subdir') or 0)
@@ -1094,7 +1159,7 @@ def run_package(case, f, flt, nus_held, d, drv):
                             shutil.copyfileobj(fi, fo)
                         os.remove(spath)
                 pk.write_parameters(md, list(pkg['table']), {'PAR1': [float(pkg['names'].index(n)) for n in pkg['table']]})
-                convolve_model_dir(md, [f])
+                convolve_model_dir(md, [f], overwrite=bool(pkg.get('stale')))
             c = ConvolvedFluxes.read(os.path.join(md, 'convolved', f.name + '.fits'))
             got_names = [str(n).strip() for n in c.model_names]
             got_flux = np.asarray(c.flux.to(u.mJy).value, dtype=float)
@@ -1108,6 +1173,10 @@ def run_package(case, f, flt, nus_held, d, drv):
     if got_flux.shape != (len(pkg['names']), nap):
         return CaseResult(False, violates=True, detail='convolved flux array has shape %r for %d models x %d apertures'
                           % (got_flux.shape, len(pkg['names']), nap))
+    many_R = None
+    if pkg.get('many'):
+        nu0 = np.array(rebin_grid_hz(wavs[0], pkg, cube, axes))
+        many_R = drv.ask('c06.rebin %s %s' % (fl, rats(sorted(float(v) for v in nu0)))).rats()
     for mi, name in enumerate(pkg['names']):
         # this model's own grid, as SED.write stores it (sorted by frequency)
         nu = np.array(rebin_grid_hz(wavs[mi], pkg, cube, axes))
@@ -1115,10 +1184,19 @@ def run_package(case, f, flt, nus_held, d, drv):
         nus = [float(v) for v in nu[order]]
         flux = np.array(pkg['flux'][mi], dtype=float).reshape(nap, -1)
         err = np.array(pkg['err'][mi], dtype=float).reshape(nap, -1)
-        line = ['c06.convolve', fl, rats(nus), str(nap)]
-        for a in range(nap):
-            line += [rats(in_mjy(flux[a, order], nus, unit)), rats(in_mjy(err[a, order], nus, unit_err))]
-        t = drv.ask(' '.join(line))
+        if many_R is not None:
+            # more than a thousand models on one grid: sum_i F_i R_i and sum_i (E_i R_i)^2 exactly, with the model's R_i
+            toks = [str(nap)]
+            for a in range(nap):
+                fa = in_mjy(flux[a, order], nus, unit)
+                ea = in_mjy(err[a, order], nus, unit_err)
+                toks += [rat(sum(x * r for x, r in zip(fa, many_R))), rat(sum((x * r) ** 2 for x, r in zip(ea, many_R)))]
+            t = common.Toks(toks)
+        else:
+            line = ['c06.convolve', fl, rats(nus), str(nap)]
+            for a in range(nap):
+                line += [rats(in_mjy(flux[a, order], nus, unit)), rats(in_mjy(err[a, order], nus, unit_err))]
+            t = drv.ask(' '.join(line))
         n = t.nat()
         row = got_names.index(name)
         for a in range(n):
